@@ -541,6 +541,7 @@ class Facts:
         self.inlined = []
         if os.environ.get('QV_NO_INLINE') != '1':
             from . import inline
+            self.reordered = inline.normalise_param_order(self)
             self.inlined = inline.apply(self)
 
     def fn(self, gpath):
